@@ -115,6 +115,24 @@ func c16Judge(c *hx.Ctx, blob []byte, signer *x509.Certificate, label string, pr
 			return
 		}
 	}
+	// the same parsed object verified again in other orders: verdicts must not depend on history
+	for _, seq := range [][]int{{0, 2, 1, 0, 2}, {2, 0, 2}, {1, 2, 0, 2}} {
+		p2, e2 := pkcs7.ParsePKCS7(blob)
+		if e2 != nil {
+			break
+		}
+		for _, ci := range seq {
+			var ok bool
+			if pn := hx.Try(func() { ok, _ = p2.Verify(certs[ci].c) }); pn != nil {
+				bad("verification ends in "+pn.String(), nil)
+				return
+			}
+			if ok != certs[ci].want {
+				bad("verdict against "+certs[ci].name+" depends on verifications made earlier on the same parsed object", map[string]any{"order": seq})
+				return
+			}
+		}
+	}
 	// re-encoding of the parsed attributes
 	if len(p.SignerInfo) != len(ref.Signers) {
 		bad("number of signer entries differs", nil)
